@@ -136,6 +136,11 @@ fn run_l1(c: &Case) -> (Result<Result<Built, vharness::libwallet::Error>, String
 }
 
 fn run_l2(c: &Case) -> (Result<Result<Built, vharness::libwallet::Error>, String>, u64) {
+	run_l2_fixed(c, None)
+}
+
+/// build_send_tx as the late-locked finalize calls it: with the fee fixed when the send was initiated
+fn run_l2_fixed(c: &Case, fixed: Option<u64>) -> (Result<Result<Built, vharness::libwallet::Error>, String>, u64) {
 	let mut w = mk_backend(c);
 	let parent = acct_id(c.parent);
 	let kc = w.keychain.clone();
@@ -152,7 +157,7 @@ fn run_l2(c: &Case) -> (Result<Result<Built, vharness::libwallet::Error>, String
 			c.max_outputs as usize,
 			c.change_outputs as usize,
 			c.all,
-			None,
+			fixed,
 			parent.clone(),
 			true,
 			true,
@@ -481,8 +486,38 @@ fn emit(out: &mut Out, id: u64, c: &Case, do_l2: bool) {
 		}
 		e2 = Some(enc(&r2));
 	}
+	// late lock: the same selection against a fee fixed earlier — the fee this selection needs, the
+	// fee of a selection with one input more, or one input less (so equal, higher and lower occur)
+	let mut e3 = None;
+	let mut fixed = None;
+	if do_l2 && id % 4 != 0 {
+		let base = match &r1 {
+			Ok(Ok(b)) => (b.fee, b.inputs.len(), b.changes.len()),
+			_ => (FEE1, 1, 0),
+		};
+		let f = match id % 4 {
+			1 => base.0,
+			2 => tx_fee(base.1 + 1, base.2 + 1, 1),
+			_ => tx_fee(base.1.saturating_sub(1).max(1), base.2 + 1, 1).min(base.0.saturating_sub(1).max(1)),
+		};
+		let (r3, nc3) = run_l2_fixed(c, Some(f));
+		for x in oracle(c, &r3, nc3) {
+			fails.push(format!("build_send_tx(fixed fee): {}", x));
+		}
+		if let Ok(Ok(b)) = &r3 {
+			if b.fee != f {
+				fails.push(format!(
+					"build_send_tx(fixed fee): agreed to build with fee {} although the fee fixed earlier is {}",
+					b.fee, f
+				));
+			}
+		}
+		e3 = Some(enc(&r3));
+		fixed = Some(f);
+	}
 	out.line(&json!({"id": id, "case": case_json(c), "l1": strs(&e1),
-		"l2": e2.map(|e| strs(&e)), "oracle": fails}));
+		"l2": e2.map(|e| strs(&e)), "l3": e3.map(|e| strs(&e)), "fixed": fixed.map(|f| f.to_string()),
+		"oracle": fails}));
 }
 
 fn main() {
